@@ -3,7 +3,7 @@
    array sizes), and the witnesses that show the side conditions are tight. *)
 From Coq Require Import ZArith List Bool Arith Lia.
 From LZ4V Require Import Gen.Consts Gen.TPoolSites Model.WriteReg Model.TPool Model.Pipeline
-  Proofs.TPoolProofs Proofs.DecodeRingProofs Proofs.CompressProofs Proofs.NeverFullProofs.
+  Proofs.TPoolProofs Proofs.DecodeRingProofs Proofs.CompressProofs Proofs.NeverFullProofs Proofs.DeadlockProofs.
 Import ListNotations.
 
 (* ---- the generated layer is consistent with what the models assume *)
@@ -153,4 +153,37 @@ Proof.
   assert (D2 : 1 <= c_wdepth (cf_cfg N nfull last)) by (vm_compute; lia).
   destruct (never_full _ C1 HN D1 D2 sched st H) as (A&B&C0).
   repeat split; try assumption; eapply (waiters_homogeneous _ C1 HN D1 D2 sched st H); assumption.
+Qed.
+
+(* ---- deadlock freedom at the generated TPool_create depths, any worker count >= 1 *)
+Theorem no_deadlock_legacy : forall N nfull last sched st, 1 <= N ->
+  run (cl_cfg N nfull last) (init_state (cl_cfg N nfull last)) sched = Some st -> final st = false ->
+  exists pk st', pstep (cl_cfg N nfull last) st pk = Some st'.
+Proof.
+  intros N nfull last sched st HN H Hf.
+  assert (C1 : is_comp (cl_cfg N nfull last)) by (left; reflexivity).
+  assert (D1 : 2 <= c_tdepth (cl_cfg N nfull last)) by (vm_compute; lia).
+  assert (D2 : 1 <= c_wdepth (cl_cfg N nfull last)) by (vm_compute; lia).
+  exact (no_deadlock _ C1 HN D1 D2 sched st H Hf).
+Qed.
+
+Theorem no_deadlock_lz4f : forall N nfull last sched st, 1 <= N -> 1 <= nfull ->
+  run (cf_cfg N nfull last) (init_state (cf_cfg N nfull last)) sched = Some st -> final st = false ->
+  exists pk st', pstep (cf_cfg N nfull last) st pk = Some st'.
+Proof.
+  intros N nfull last sched st HN Hn H Hf.
+  assert (C1 : is_comp (cf_cfg N nfull last)) by (right; split; [reflexivity|exact Hn]).
+  assert (D1 : 2 <= c_tdepth (cf_cfg N nfull last)) by (vm_compute; lia).
+  assert (D2 : 1 <= c_wdepth (cf_cfg N nfull last)) by (vm_compute; lia).
+  exact (no_deadlock _ C1 HN D1 D2 sched st H Hf).
+Qed.
+
+(* a run that cannot be extended is a completed run with the sequential output *)
+Theorem stuck_is_complete : forall c, is_comp c -> 1 <= c_N c -> 2 <= c_tdepth c -> 1 <= c_wdepth c ->
+  forall sched st, run c (init_state c) sched = Some st -> (forall pk, pstep c st pk = None) ->
+  final st = true /\ s_out st = sequential_output c.
+Proof.
+  intros c C1 HN D1 D2 sched st H Hn.
+  pose proof (stuck_is_final c C1 HN D1 D2 sched st H Hn) as F. split; [exact F|].
+  eapply comp_final; try eassumption. lia.
 Qed.
